@@ -50,11 +50,11 @@ Definition row_storage_map (t : table) : list (N * N) := of_items (number_from 0
 Definition row_storage_map_pinned (t : table) : list (N * N) := of_items (number_from 0 (concat (hdrs t))).
 
 (* the dict starts as {i: None for i in range(number_of_rows)}: a row outside it and never assigned is a KeyError *)
-Definition storage_buffer_with (m : list (N * N)) (t : table) (row : N) (col : nat) : result (option (list N)) :=
+Definition storage_buffer_with (m : list (N * N)) (bufs : list cells) (nr : N) (row : N) (col : nat) : result (option (list N)) :=
   match aget N.eqb row m with
-  | None => if row <? nrows t then Ok None else Err KeyError
+  | None => if row <? nr then Ok None else Err KeyError
   | Some idx =>
-    match nth_error (storage_buffers t) (N.to_nat idx) with
+    match nth_error bufs (N.to_nat idx) with
     | None => Ok None                                    (* row_offset >= len(storage_buffers) *)
     | Some cs => match nth_error cs col with
                  | None => Ok None                       (* col >= len(storage_buffers[row_offset]) *)
@@ -62,8 +62,8 @@ Definition storage_buffer_with (m : list (N * N)) (t : table) (row : N) (col : n
                  end
     end
   end.
-Definition storage_buffer (t : table) := storage_buffer_with (row_storage_map t) t.
-Definition storage_buffer_pinned (t : table) := storage_buffer_with (row_storage_map_pinned t) t.
+Definition storage_buffer (t : table) := storage_buffer_with (row_storage_map t) (storage_buffers t) (nrows t).
+Definition storage_buffer_pinned (t : table) := storage_buffer_with (row_storage_map_pinned t) (storage_buffers t) (nrows t).
 
 Definition with_hdrs (t : table) (h : list (list N)) : table :=
   {| nrows := nrows t; ncols := ncols t; tile_size := tile_size t; hdrs := h; tiles := tiles t |}.
